@@ -18,31 +18,36 @@ add("C01", "model_checking",
     "exhaustive enumeration of RNG answer sequences (stateless DFS) and explicit-state BFS over captured program states of the real generators",
     "Every execution of every generator on all grids up to 4x4 (default gen_dfs), the kwargs cross product on <=3x3/3x4, the complete reachable "
     "program-state graph of Wilson and the randomized-stack DFS (states/transitions reported, absorption mass -> termination w.p. 1), and "
-    "effective-bit families for percolation are explored on the real code; each terminal is judged by a dict/BFS reference model.",
+    "effective-bit families for percolation are explored on the real code; each terminal is judged by a dict/BFS reference model. Also: every execution on one-cell-wide "
+    "grids with a side of 129..200 (300) cells, and every generator on sequences of grid shapes / argument sets one after the other in ONE fresh interpreter (nothing of an earlier call may stick).",
     "Bounded grids (small-scope); RNG primitives answer within range; program state = locals+instruction offsets of library frames.", "5/C01")
 add("C12", "model_checking",
     "same execution trees / state graphs as C01, metadata oracle on every terminal + every answer of generate_random_path()",
     "Every terminal of the exhaustively explored generator executions is compared with reference reachability (visited_cells == component of start, "
-    "flag <=> connected, tree over visited cells, count bounds, corridor rule) and every endpoint draw on every distinct (maze, meta) is executed.",
+    "flag <=> connected, tree over visited cells, count bounds against the REQUESTED count of the call, corridor rule) and every endpoint draw on every distinct (maze, meta) is executed, "
+    "after the same walls were queried with other metadata (twin history); shape / argument sequences in one fresh interpreter as for C01.",
     "Bounded grids; the documented ValueError/AssertionError for <2-cell components and 1xN grids is accepted.", "5/C12")
 
 add("C19", "model_checking",
     "explicit-state BFS over the program states of the real gen_wilson (complete Markov chain) + exact absorption probabilities",
     "The complete reachable state graph of gen_wilson on 1x2..3x3 (thorough: 2x4, 4x2, 3x4 under a cap) is built from real executions under the "
     "choice oracle; the terminal set must equal the brute-force set of spanning trees and every tree's exact absorption probability must be 1/N "
-    "(1e-9), with residual mass < 1e-12. Weighted draws (choice(p=...)) are modelled with their weights.",
+    "(1e-9), with residual mass < 1e-12. Weighted draws (choice(p=...)) are modelled with their weights. Chains of several grid shapes are also built one after the other in one "
+    "fresh interpreter, and with the real PRNG the tree after np.random.seed(s) is checked to be a function of s alone (twice with other RNG use in between, in a forked child) with every tree occurring over the seed range.",
     "Decides uniformity of the algorithm given uniform NumPy primitives, not PRNG quality for every seed; bounded grids.", "5/C19")
 add("C09", "exploration",
     "bounded-exhaustive enumeration of all ordered maze pairs of a variant family and of the endpoint coordinate box",
     "All ordered pairs (same object / equal copy / every other member) over a family of mazes of all three kinds and several shapes with one-bit, "
     "one-endpoint, one-solution-cell and metadata variants are compared with ==, != and hash against a fingerprint model; sets/dicts and dataset "
-    "equality likewise; every start/end in the -2..size+1 box through five constructors.",
+    "equality likewise (incl. degenerate and broadcast-compatible shapes); every start/end in the box reaching beyond both dimensions on square and oblong grids through five constructors; "
+    "every sequence of <= 3 (4) observations and in-place changes on one live maze object against a fresh maze of the same structure.",
     "Family-based (not all mazes); shapes <= 3x3.", "5/C09")
 add("C02", "exploration",
     "bounded-exhaustive enumeration of all connection structures x all ordered cell pairs against a reference BFS",
     "Every graph on every grid up to 3x3 (thorough: up to 3x4/4x3, 131072 graphs each) x every ordered (start,end) pair is solved by the real A* "
     "and compared with reference BFS distances: endpoints, adjacency along connections, exact minimal length, ValueError iff disconnected, "
-    "one-cell path for start==end; also through SolvedMaze.from_targeted_lattice_maze and on structured mazes up to 20x20.",
+    "one-cell path for start==end; also through SolvedMaze.from_targeted_lattice_maze, on structured mazes up to 20x20, on one- and two-cell-wide grids with a side of 129..300 cells, "
+    "and with same-cell-count shapes interleaved in one fresh interpreter (one maze object per graph for all its pairs).",
     "Small-scope: larger grids only via structured families.", "5/C02")
 
 add("C08", "model_checking",
@@ -50,7 +55,8 @@ add("C08", "model_checking",
     "From crafted start datasets (increasing/equal lengths, exact duplicates at first/last/adjacent/non-adjacent positions, near-duplicates at Hamming "
     "distance 1-2, all-failing, single; each with and without per-maze metadata) every sequence of filters up to depth 2 (thorough 3) over an alphabet of all "
     "built-in filters with boundary arguments and custom predicates is executed; each transition is compared with a list-comprehension reference, the "
-    "input is checked untouched, provenance and counts are checked; from_config(cfg with filters) is compared with the hand-applied chain.",
+    "input AND every earlier dataset of the history are checked untouched, provenance and counts are checked; the search is repeated without merging states (every sequence as such); "
+    "from_config(cfg with filters) is compared with the hand-applied chain.",
     "State key drops the append-only provenance log (checked per transition); grid 3, <=6 mazes.", "5/C08")
 
 add("C04", "model_checking",
@@ -59,19 +65,22 @@ add("C04", "model_checking",
     "config constructions, other generate / from_config calls, shuffling tokenisations, generating the observed config itself, the caller being a "
     "multiprocessing child) is executed; in every distinct global state every observed configuration (all generators x kwargs x seeds, endpoint options, "
     "filters) is generated and must be bit-identical to the generation from the initial state; from_config(no cache) must equal generate + reference "
-    "filters and leave the cfg unchanged; fingerprints are recomputed in fresh interpreters with PYTHONHASHSEED in {0,1,2,4242,random}.",
+    "filters and leave the cfg unchanged (generate too); fingerprints are recomputed in fresh interpreters with PYTHONHASHSEED in {0,1,2,4242,random}; every observed configuration is also "
+    "generated alone in a fresh interpreter and after every history over its one-field neighbours x {construct, generate, from_config}, each history in its own fork of a pristine interpreter.",
     "Global state = the RNGs and module globals listed in the evidence; grid 3-4, n_mazes 3-6.", "5/C04")
 add("C14", "exploration",
     "bounded-exhaustive enumeration of all 4096 vocabulary positions, all single/pair/triple token and id sequences over boundary alphabets, all unknown-token/id "
     "placements and all 150 legacy tokenizers against a literal reference layout pinned by SHA-256",
     "Every vocabulary position against the literally re-stated block layout (and a pinned SHA-256), VOCAB_TOKEN_TO_INDEX inverse, every single id/token, 64^2 pairs "
     "and 16^3 triples (320^2 / 48^3 thorough) through all encode/decode forms, unknown tokens/ids at every position, all 1225 (n<m) corner-first prefix pairs, "
-    "3 modes x max_grid_size 1..50 legacy vocabularies (duplicate-free, inverse map, row-major, prefix).",
+    "3 modes x max_grid_size 1..50 legacy vocabularies (duplicate-free, inverse map, row-major, prefix), also built in descending / zigzag order and after every access path of the "
+    "special-token tables in fresh interpreters; the layout is judged again after every task.",
     "Longer sequences rely on the element-wise structure of encode/decode.", "5/C14")
 add("C16", "exploration",
     "bounded-exhaustive enumeration of all member-length vectors, each member on its own grid size, every index, against list concatenation by object identity",
     "All length vectors in {0..3}^<=4 (thorough {0..4}^<=5, 3905 vectors) incl. every zero pattern x 4 config constructions; every valid index checked by identity "
-    "against the concatenation (plus i=len), mazes / dataset_lengths / dataset_cum_lengths / cfg.n_mazes agreement before and after update_self_config.",
+    "against the concatenation (plus i=len), mazes / dataset_lengths / dataset_cum_lengths / cfg.n_mazes agreement before and after update_self_config; every sequence of <= 3 observations "
+    "over 10 kinds (incl. all ordered index pairs) on fresh collections.",
     "Members hold small fixed mazes; negative / numpy indices not covered.", "5/C16")
 
 add("C03", "model_checking",
@@ -80,46 +89,51 @@ add("C03", "model_checking",
     "(thorough: full) set of the 200 endpoint-option sets, and every answer of generate_random_path for all 200 option sets on every distinct generated maze; each item is judged "
     "against reference BFS (ends, walls, no repeat, shortest, option compliance; documented ValueError only when the reference says no admissible endpoints). Layer 2: counts for "
     "n_mazes in {0,1,2,3,5} with <=1 deviation plus real-PRNG seeds. Layer 3: all K^n schedules (K<=3, n<=4; thorough K<=4, n<=5) of a virtual pool bound into the library x 3 prior "
-    "histories x 3 worker-random seedings; real multiprocessing pools in fresh interpreters must reproduce some enumerated schedule (numpy-only generators).",
+    "histories x 3 worker-random seedings (+ endpoint options / generator arguments through the pool, and after generations with other options); real multiprocessing pools in fresh "
+    "interpreters must reproduce some enumerated schedule (numpy-only generators). Every 3x3 graph as a percolation output x every endpoint answer; dataset counts 129 / 257.",
     "Pool model assumptions are listed in the evidence; grids 2-3 (4 thorough); OS scheduling itself is not controlled.", "5/C03")
 add("C11", "fault_enumeration",
     "exhaustive enumeration of crash images from the recorded file-API write log of a real save, truncations, single-byte corruptions and foreign cache files",
     "A real from_config save is recorded at the file API (every write with offset, incl. zip header rewrites; the log must reproduce the file byte for byte). For every prefix of the "
     "log with the last write torn, every truncation offset (dense stride quick, every byte thorough), single-byte corruptions, appended garbage, missing and empty files, the real "
     "from_config must return exactly a fresh generation's mazes and leave a loadable, equal file; for all ordered pairs of an 11-member one-field-different config family the "
-    "foreign file must raise or yield exactly the requested data (maze count exempt).",
+    "foreign file (full and minimal format) must raise or yield exactly the requested data (maze count exempt); the request after every damaged-image request must be answered alike; "
+    "explicit-state BFS over the cache-slot content x 16 events (all load/save flag combinations); every sequence of <= 3 (4) requests / in-place edits on one live config object.",
     "Crash = prefix of the application's writes (no reordering below the file API); media faults = single-byte corruptions only.", "5/C11")
 add("C13", "exploration",
     "bounded-exhaustive enumeration of every connection structure up to 3x3 x every cell / ordered cell pair / candidate path / solution, and every RNG answer of as_adj_list up to 4 "
     "connections, against a dict-of-sets adjacency",
     "Every graph of all grids up to 3x3 (thorough: 2x4/4x2 fully, 3x4/4x3 for the cheap queries, structured mazes to 15x15) x every cell, ordered pair, candidate path (valid, broken, "
     "out of bounds, empty) and solution for thirteen query functions incl. adjacency-list round trips under all shuffle answers (bounded family above 4 connections) and the "
-    "fork / path-following partition.",
+    "fork / path-following partition; same-cell-count shapes interleaved in one fresh interpreter; one live maze whose connection array is rewritten in place, battery after every rewrite.",
     "get_connected_component without metadata only on connected graphs; from_adj_list only where the highest row and column index occur; lattice_max_degrees(1) observed, not judged.", "5/C13")
 add("C20", "exploration",
     "bounded-exhaustive enumeration of graphs x unit lengths x cell values for the image builder and of complete Agg plots / path overlays, pixels and artist coordinates read back",
     "_lattice_maze_to_img on every graph up to 3x3 x unit_length {3,4,5,14} x with/without cell values; complete MazePlot(...).plot() on all of G(2,2) x kinds, all 192 3x3 trees x 4 "
     "endpoint pairs, structured 5x5/8x8/4x7, and every simple lattice path <= 4 cells as true / predicted path; block/strip pixels, rendered wall colour, ax.images array, line and "
-    "quiver coordinates and the ASCII export are compared with the reference adjacency.",
+    "quiver coordinates and the ASCII export are compared with the reference adjacency; every sequence of <= 3 calls over 7 kinds on one MazePlot, then plot; solved mazes with non-shortest stored solutions.",
     "With cell values crossing pixels and the top/left frame are not judged; ticks, labels, colours out of scope.", "5/C20")
 
 add("C05", "exploration",
     "bounded-exhaustive enumeration of (dataset, storage format / threshold, transport) triples and of collection cases, each written and read back on the real implementation",
     "5 generators x grids 2-6 x n in {1,2,3,5} and every solution-length-class assignment over {1,2,3,full} for n<=3 (n<=4 thorough) plus 13 n=5 patterns, x 3 metadata modes x "
     "{full, minimal, minimal_soln_cat, serialize() under 5 thresholds} x {in-memory, ZANJ file}; collections of 1-3 members incl. empty ones x thresholds x 3 config wirings; every "
-    "case compared maze by maze, cfg and collected-metadata counter with a pre-serialisation snapshot.",
+    "case compared maze by maze, cfg and collected-metadata counter with a pre-serialisation snapshot; solution lengths across 127/128/255/256; chains of <= 3 serialisation steps; "
+    "every sequence of <= 4 steps over serialise-and-keep / load / write-later for two same-sized datasets.",
     "Grids <= 6, n <= 5; partial per-maze metadata, threshold -1 and grids > 127 out of bound; the documented in-place collect_generation_meta provenance entry is tolerated.", "5/C05")
 add("C15", "exploration",
     "bounded-exhaustive enumeration of the real all_instances / get_all_tokenizers output (element families, a 72-slice partition of the whole 5,878,656-tokenizer space, stars/boxes, "
     "un-sliced pass in thorough) compared as a configuration multiset with an explicit cartesian-product reference",
     "quick: full-space structure (all 5,878,656 configurations exactly once, by slices) + ~47k distinct configurations for names / hashes / equal copies / legacy / serialize-load / ZANJ; "
-    "thorough: names, hashes, equal-copy and legacy on all 5,878,656, un-sliced get_all_tokenizers, 527k serialize/load, 5.7k ZANJ files; hashes recomputed in 5 PYTHONHASHSEED children.",
+    "thorough: names, hashes, equal-copy and legacy on all 5,878,656, un-sliced get_all_tokenizers, 527k serialize/load, 5.7k ZANJ files; hashes recomputed in 5 PYTHONHASHSEED children. "
+    "Use histories on live tokenizers (<= 2-3 uses / observations against a never-used twin); the sampling helpers must leave the cached enumeration intact (all orders).",
     "save/load not full-space; configurations read via vars(); cross-process uniqueness via 64-bit digests.", "5/C15")
 add("C18", "exploration",
     "bounded-exhaustive enumeration of the configuration field lattice (full cross product / Hamming ball), all one-field-different pairs and 5 PYTHONHASHSEED child interpreters "
     "against a literal reference (sha256 of the JSON text, file-name composition, type-strict field comparison)",
     "Every config of the stated lattice (25 286 thorough / 2 362 quick, + 156 collection configs) is serialized, hashed, named and reloaded directly and through JSON text; every "
-    "single-field pair and all configs pairwise have distinct hashes; hashes and file names identical in 5 interpreters with different hash seeds.",
+    "single-field pair and all configs pairwise have distinct hashes; hashes and file names identical in 5 interpreters with different hash seeds; every sequence of <= 3 (4) observations / "
+    "in-place changes on one live config against a fresh config of the same fields.",
     "Representative values per field; tuples nested inside filter args only judged modulo list/tuple on the JSON path; n_mazes excluded from ==/diff by the library.", "5/C18")
 
 add("C06", "exploration",
@@ -128,27 +142,28 @@ add("C06", "exploration",
     "Region sweep: all 1 944 adjacency and 9 072 path programs from the library's own all_instances on every 2x2 graph / solved maze, a 3x3 family, 11x11, 17x17 corridor and (thorough) "
     "50x50 mazes; input sweep: pairwise-covering full tokenizers x all mazes of all kinds on 2x2, 2x3, 3x3 trees and cyclic graphs; whole-prompt sweep: both sequencers x 3 coord "
     "tokenizers x covering elements x three kinds. Every stream: vocabulary membership, region delimiters once and in order, decoded edge multiset == selected edge set with correct "
-    "labels, origin/target, path steps (coords, cardinal, relative, distance) == reference step rule.",
+    "labels, origin/target, path steps (coords, cardinal, relative, distance) == reference step rule. 13x13 / 16x16 mazes; one stored solution over every maze that contains it.",
     "The product programs x inputs is not claimed; shuffle answers complete only on 2x2; non-square mazes with AllLatticeEdges are rejected by the library (counted). One known finding (Distance gap > 255).", "5/C06")
 add("C07", "exploration",
     "bounded-exhaustive enumeration of mazes (all admissible graphs <= 3x3, every gen_dfs output on 4x4, structured 11/12/20) x kinds x 3 legacy modes x max_grid_size x modular equivalents "
     "x input forms x shuffle answers, round trip and legacy-vs-modular agreement judged on every one",
     "cls.from_tokens(m.as_tokens(t), t) for list and joined-string input must return the same kind with identical bits, start, end and solution; legacy and from_legacy modular tokens must "
     "agree outside the adjacency region and as multisets of unordered edges inside; MazeDataset.as_tokens(t, limit, join) must equal per-maze tokenization in order under the same RNG answers "
-    "for limit in {None,0,1,n,n+1} x join in {F,T}.",
+    "for limit in {None,0,1,n,n+1} x join in {F,T}, and for every ordered pair of such calls on one fresh dataset object.",
     "Shuffle answers complete on 2x2, identity + bounded families elsewhere; grids 2,3,4,11,12,20.", "5/C07")
 add("C10", "exploration",
     "bounded-exhaustive enumeration of every connection structure up to 3x3 (subset on 3x3 in quick) x kinds x every ordered endpoint pair x every shortest path x 4 flag combinations x "
     "{pixels, ASCII}, compared pixel by pixel with a reference raster and read back",
     "Every picture must equal the reference raster (size, border, cells, between-pixels, endpoints, solution) and the ASCII text the same picture character for character; from_pixels / "
     "from_ascii of the full-flags picture must return the same kind, bits, start, end and ordered solution for start != end with a shortest path; structured grids 4x4, 3x5, 5x3, 6x6 "
-    "(thorough up to 12x12).",
+    "(12x12, 11x12, 12x11 in both tiers); same-cell-count shapes rendered interleaved in one fresh interpreter in 3 orders.",
     "(show_endpoints=False, show_solution=True) may be rejected (documented); larger grids by structured family only.", "5/C10")
 add("C17", "exploration",
     "bounded-exhaustive enumeration of solved mazes (every graph <= 2x3/3x2 x every simple path; 3x3 family x all pairs x all shortest paths; structured 5x5, 4x6) x all 8 option "
     "combinations through process_maze_rasterized_input_target, and of dataset triples x index lists through RasterizedMazeDataset, per-pixel reference comparison",
     "Input image == reference raster with the path hidden and endpoints kept; target == wall except solution pixels (open) with endpoints coloured or opened per option; isolated-pixel "
-    "removal and pixel extension against literal reference implementations; ds[i], get_batch(idxs) for 40 index lists per dataset and from_base_MazeDataset against per-item stacking.",
+    "removal and pixel extension against literal reference implementations; ds[i], get_batch(idxs) for 40 index lists per dataset (items re-read afterwards in another order) and "
+    "from_base_MazeDataset against per-item stacking; same-cell-count shapes interleaved in one fresh interpreter.",
     "Grids above 3x3 by structured family; start == end accepts either endpoint colour.", "5/C17")
 
 PLANNED = {}
